@@ -66,6 +66,10 @@ pub(crate) fn c10_write_io() {
     vassert!(bus.misr == old.misr, "C10.W.io.misr-untouched");
     if addr == 0xF9 {
         vassert!(bus.micr.bits() == byte & 0x3F, "C10.W.io.f9-sets-micr");
+        // ... and the mask is what the enable accessors report: bit 0 key edge, bit 1 timer edge,
+        // each independently of the other bits
+        vassert!(bus.is_key_edge_int_enabled() == (byte & 0x01 != 0), "C10.W.io.f9-mask-bit0-is-key-edge-enable");
+        vassert!(bus.is_timer_edge_int_enabled() == (byte & 0x02 != 0), "C10.W.io.f9-mask-bit1-is-timer-edge-enable");
     } else {
         vassert!(bus.micr == old.micr, "C10.W.io.micr-only-by-f9");
     }
